@@ -200,8 +200,12 @@ func genObj(rng *PRNG, objRefs, arrRefs []string, depth int, feats jsonFeats) *J
 		switch rng.Intn(4) {
 		case 3:
 			if feats.inlineObj && depth < 2 {
-				// an inline object as the additional-property schema (hoisted as <Parent>AdditionalProperties)
+				// an inline object as the additional-property schema (hoisted as <Parent>AdditionalProperties);
+				// every third one has no properties of its own, only a map (a map of maps)
 				o.Addl = genObj(rng, nil, nil, 2, jsonFeats{})
+				if rng.Chance(1, 3) {
+					o.Addl = &JS{Kind: "obj", Addl: &JS{Kind: Pick(rng, []string{"int", "str"})}}
+				}
 			} else {
 				o.Addl = &JS{Kind: "int"}
 			}
@@ -555,7 +559,8 @@ func (e *jsonEnv) genVal(rng *PRNG, s *JS, depth int) rt.Val {
 	case "arr":
 		// a nil slice is generated only where goag converts it to [] (object property or
 		// top-level array component, not under Nullable, not nested in arrays / maps): DESIGN §11
-		if rng.Chance(1, 8) && !s.Nullable && depth <= 1 {
+		// (a NON-NULL nullable array holding a nil slice is in the domain too: it must stay non-null)
+		if rng.Chance(1, 8) && depth <= 1 {
 			return rt.Val{K: "nilarr"}
 		}
 		n := rng.Intn(4)
@@ -798,6 +803,28 @@ func (e *jsonEnv) docCasesFor(rng *PRNG, s *JS, n int) []docCase {
 			continue
 		}
 		base := e.resolve(s)
+		if base.Kind == "oneOf" && base.Disc != "" {
+			// the discriminator property itself: absent, null, and every wrong JSON kind
+			for _, bad := range []struct {
+				tag string
+				v   any
+				del bool
+			}{{"drop:" + base.Disc, nil, true}, {"swap:" + base.Disc, json.Number("1"), false}, {"swap:" + base.Disc, true, false},
+				{"swap:" + base.Disc, []any{"x"}, false}, {"swap:" + base.Disc, map[string]any{"a": "b"}, false}, {"null:" + base.Disc, nil, false}} {
+				c := map[string]any{}
+				for k, v := range m {
+					c[k] = v
+				}
+				if bad.del {
+					delete(c, base.Disc)
+				} else {
+					c[base.Disc] = bad.v
+				}
+				bs, _ := json.Marshal(c)
+				out = append(out, docCase{bad.tag, string(bs)})
+			}
+			continue
+		}
 		if base.Kind != "obj" {
 			continue
 		}
@@ -951,7 +978,6 @@ func facetJSON(args []string) error {
 	os.WriteFile(filepath.Join(*out, "meta.json"), meta, 0o644)
 	return rerr
 }
-
 
 // allOfAddl: the additionalProperties schema of the last inline member that declares one.
 func allOfAddl(s *JS) *JS {
